@@ -144,6 +144,12 @@ instance instDecEqExcept {ε α} [DecidableEq ε] [DecidableEq α] : DecidableEq
 def ekuIsAny (n : String) : Bool := Gen.ekuTable.lookup n == some "x509.ExtKeyUsageAny"
 def ekuKnown (n : String) : Bool := (Gen.ekuTable.lookup n).isSome
 
+/-- the EKU filter of the validated configuration (`ValidatedLogConfig.KeyUsages`, handed unchanged to the instance's
+`CertValidationOpts.extKeyUsages`): none when "Any" is listed anywhere in the list, else the listed usages in order (the constants'
+names, by the regenerated table) -/
+def ekuFilter (names : List String) : List String :=
+  if names.any ekuIsAny then [] else names.filterMap (fun n => Gen.ekuTable.lookup n)
+
 /-- the EKU list is acceptable when every name is in the table ("only known EKU names").
 (Finding: the unchanged loop stops looking at the first `Any`, so unknown names after it pass.) -/
 def ekusOk (l : List String) : Bool := l.all ekuKnown
